@@ -242,5 +242,16 @@ CHECKS["C20"] = dict(
     design_ref="DESIGN.md §5 C20", note=SEM_NOTE + " MaxSAT quantisation: worlds within 0.1% of the optimum accepted.",
     technique="TLA+ possible-world semantics (max over worlds) evaluated by TLC on recorded MPE answers")
 
+CHECKS["C21"] = dict(
+    category="model_checking",
+    text="LocalSearch.tla transcribes search_local (one step per evaluate call); TLC explores every score table over the "
+         "strategies of N decisions and every start: the search terminates and ends in a strategy no single flip improves. The "
+         "real search_local is replayed on scripted score tables and judged (JudgeDT.tla): local optimum (verdict), same end "
+         "state and number of evaluations as the transcription (drift). Generated decision-theoretic programs: JudgeDT.tla "
+         "computes the exact expected utility of every strategy from Semantics.tla; exhaustive search must return a maximiser "
+         "with its EU as score, local search a strategy whose single flips do not improve it.",
+    design_ref="DESIGN.md §5 C21", note=SEM_NOTE + " MAP (tasks/map.py) is not decided. LocalSearch bounds: N<=3 decisions, scores 0..3.",
+    technique="TLA+ model of the local search checked exhaustively by TLC + replay of the real search on scripted scores + TLA+ EU oracle")
+
 NOT_YET = "check not built yet in this round (planned in DESIGN.md §5); not claimed"
 NOT_APPLICABLE = {}
